@@ -6,7 +6,7 @@ import QtVerif.Model.Core
   port <i> <n|b> <enabled 0|1> <reg>             define port i before `boot` (<reg> = integer | na)
   boot                                           State.init (forceAll set, as `main.init()` does)
   src <i> <v> | api <i> <v> | en <i> | dis <i> | expr <i> <prefix tokens…> | clr <i>     external actions
-  act <name> [<i>]                               one internal action (pb-anon, pb-writer i, pb-evaler i, read, ha, hb,
+  act <name> [<i>]                               one internal action (pb-anon, pb-writer i, pb-evaler i, read, skip, ha, hb,
                                                  take i, cmp i, wb i, we i)
   settle <fuel>                                  canonical fair schedule until quiescent and stable
   state                                          `ok <quiescent 0|1> | <en>:<lastRead>:<reg>:<class> …`
@@ -174,6 +174,7 @@ def dstep (d : DState) : List String → DState × String
     | _, _ => (d, "bad-op")
   | ["act", "pb-anon"] => ext d (.passBegin .anon)
   | ["act", "read"] => ext d .passRead
+  | ["act", "skip"] => ext d .passSkip
   | ["act", "ha"] => ext d .passHandleA
   | ["act", "hb"] => ext d .passHandleB
   | ["act", name, i] =>
